@@ -372,7 +372,10 @@ def _replay_slice(ctx, table, cl, objdir, targ, audit, per_tu, stats):
         return kind, plist, audit_tu(kind, targ, pretext if kind != "gcc" else pretext_nf, plist, ctx.scratch,
                                      "%s_%s_%d" % (kind, targ, id(plist)), ps.g2(kind != "gcc"))
 
-    work_items = [("cproc", ch) for ch in chunks(ps.probes, per_tu)]
+    # probes the model of the shipped code expects to be refused (deviation SizeofSeesBitfield) go into small translation
+    # units of their own: cproc stops at the first error, so every refusal costs one more run of its unit
+    work_items = [("cproc", ch) for ch in chunks([p for p in ps.probes if not p.may_reject], per_tu)]
+    work_items += [("cproc", ch) for ch in chunks([p for p in ps.probes if p.may_reject], 50)]
     if audit:
         # the spec is audited in full on x86_64 (gcc and clang); on the other targets in full in the thorough
         # tier and on every case that mentions a target-dependent type plus a 1/8 sample in the quick tier
